@@ -100,10 +100,10 @@ def shaped_trees():
     ]
 
 
-def chains(depth):
+def chains(depth, fields=("one", "items", "child")):
     """All single-path trees root -f1-> P -f2-> ... -> leaf with every field choice at every level."""
     out = []
-    for fs in itertools.product(("one", "items", "child"), repeat=depth):
+    for fs in itertools.product(fields, repeat=depth):
         d = L()
         for f in reversed(fs):
             d = P(**{f: [d] if f == "items" else d})
@@ -244,7 +244,11 @@ def workload(tier):
     yield "small-2", small, lambda: RX.paths(2, FIELDS_RED, INDICES_RED, CLASSES_RED)
     # every 4-node chain x every 3-step path over all four field choices: a middle step that fits only deeper than depth 1
     yield "chains-3", chains(3), lambda: RX.paths(3, [None, "one", "items", "child"], [None], CLASSES_RED)
+    # the same paths on every 5-node chain: two nested ancestors can fit a middle step, the closer one failing the rest of
+    # the path and the farther one satisfying it (match has to backtrack over a mid-path '//')
+    yield "chains-4x3", chains(4, ("one", "items")), lambda: RX.paths(3, [None, "one", "items"], [None], CLASSES_RED)
     if tier == "thorough":
+        yield "chains-4x3-full", chains(4), lambda: RX.paths(3, [None, "one", "items", "child"], [None], CLASSES_RED)
         yield "chains-4", chains(4), lambda: RX.paths(4, [None, "one", "child"], [None], CLASSES_MIN + ["XP"])
         yield "shaped-3", shaped, lambda: RX.paths(3, FIELDS_RED, INDICES_RED + [12], CLASSES_RED)
         yield "shaped-4", shaped[2:], lambda: RX.paths(4, FIELDS_MIN, INDICES_MIN, CLASSES_MIN + ["XP"])
